@@ -10,6 +10,7 @@ import (
 	"fmt"
 	"sort"
 	"sync"
+	"time"
 
 	"github.com/samaritan-proxy/samaritan/host"
 )
@@ -72,6 +73,32 @@ func runC15conc(seed int64, nmain, nbackup, workers int) string {
 		}
 	}()
 	defer func() { close(stop); rw.Wait() }()
+	// a forced schedule first: a health mark of a host (its flag is flipped before the mark asks for the set's lock) and the
+	// removal of the same host queue for the lock in either order - the harness holds the set's read lock meanwhile.
+	// Whichever goes first, the removed host is not among the usable hosts afterwards.
+	for k, markFirst := range []bool{false, true} {
+		v := host.NewWithType(fmt.Sprintf("10.8.0.%d:80", k+1), host.TypeMain)
+		set.Add(v)
+		steps := []func(){func() { set.Remove(v) }, func() { set.MarkHostUnhealthy(v) }}
+		if markFirst {
+			steps[0], steps[1] = steps[1], steps[0]
+		}
+		set.RLock()
+		var fw sync.WaitGroup
+		fw.Add(2)
+		go func() { defer fw.Done(); steps[0]() }()
+		time.Sleep(30 * time.Millisecond) // the first one queues for the write lock
+		go func() { defer fw.Done(); steps[1]() }()
+		waitFor(2*time.Second, func() bool { return !v.IsHealthy() })
+		time.Sleep(20 * time.Millisecond)
+		set.RUnlock()
+		if !within(5*time.Second, fw.Wait) {
+			return "HUNG: a health mark racing with the removal of the same host"
+		}
+		if msg := check(fmt.Sprintf("after a health mark racing with the removal of the same host (mark first: %v)", markFirst)); msg != "" {
+			return "snapshot differs " + msg
+		}
+	}
 	// rounds: every worker makes one update of a host of its own at the same moment (the updates commute); afterwards the
 	// snapshot must be the expected one whatever order they were applied and published in
 	next := 0
